@@ -10,6 +10,8 @@ NoDef == [source |-> "none", script |-> "none", stylesheet |-> "none", meta |-> 
 Init == (deps = <<>> /\ def \in Defs)
 Next == def = NoDef /\ Len(deps) < MaxLen /\ \E d \in Pool : deps' = Append(deps, d) /\ UNCHANGED def
 Spec == Init /\ [][Next]_vars
+\* sequences only (for -simulate: almost every initial state of Spec is a definition shape)
+SpecSeq == (deps = <<>> /\ def = NoDef) /\ [][Next]_vars
 
 InvResolveIsSpec == Resolve(deps) = ResolveSpec(deps)
 InvIdempotent == Resolve(Resolve(deps)) = Resolve(deps)
